@@ -21,6 +21,7 @@ const PROPS: &[(&str, RunFn, ReplayFn)] = &[
     ("C11", props::c11::run, props::c11::replay),
     ("C12", props::c12::run, props::c12::replay),
     ("C13", props::c13::run, props::c13::replay),
+    ("C14", props::c14::run, props::c14::replay),
     ("C16", props::c16::run, props::c16::replay),
     ("C17", props::c17::run, props::c17::replay),
     ("C18", props::c18::run, props::c18::replay),
